@@ -67,6 +67,17 @@ func skipped(name string) bool {
 	return strings.HasSuffix(name, "~") || strings.HasSuffix(name, ".gold.v") || strings.HasSuffix(name, "_test.go")
 }
 
+// buildExcluded reports whether the Go toolchain leaves the file out of the package on this host
+// (name with an OS / architecture suffix, a leading _ or ., an unsatisfied //go:build line). The
+// property defines the tests by the directory's functions and also wants the Go file to compile;
+// for such a file the two clauses pull apart, so its functions are "optional": the generators
+// must only AGREE on them (seeded change C18-6), and the case is never compiled with go test -c.
+func buildExcluded(f File) bool {
+	n := f.Name
+	return strings.HasPrefix(n, "_") || strings.HasPrefix(n, ".") || strings.HasSuffix(n, "_windows.go") || strings.HasSuffix(n, "_arm.go") ||
+		strings.HasPrefix(f.Content, "//go:build ")
+}
+
 type fn struct {
 	File string
 	Name string
@@ -95,6 +106,8 @@ func expected(c Case) (strict []fn, optional map[string]bool, err error) {
 				continue
 			}
 			switch n := fd.Name.Name; {
+			case strictRe.MatchString(n) && buildExcluded(f):
+				optional[n] = true
 			case strictRe.MatchString(n):
 				strict = append(strict, fn{f.Name, n})
 			case looseRe.MatchString(n):
